@@ -8,6 +8,9 @@
      h:<lo>,<hi>  a size_hint observation (hi may be "none")
    iterator results: "ok" followed by one token per executed call. *)
 open Io
+let ip = Extracted.iter
+let sp = Extracted.serde
+let bp = Extracted.byteio
 let v = Base.coq_val
 let w32 = Zar.shift_left Zar.one 32
 let b256 = Zar.of_int 256
@@ -72,66 +75,66 @@ let init () =
     (three (fun s z a -> ok (res_i (Bytes.iassign_from_slice (iarg s) (arg_z z) (arg_d a)))))
     (three (fun _ z a -> iwords_spec z a));
   (* ---- bytes *)
-  let fle = one (fun a -> out (uz (fun r -> r)) (Bytes.ufrom_bytes_le (arg_b a))) in
+  let fle = one (fun a -> out (uz (fun r -> r)) (Bytes.ufrom_bytes_le bp (arg_b a))) in
   let fle_s = one (fun a -> ok (res_u (Base.enc (SpecBytes.spec_from_bytes_le (arg_b a))))) in
-  let fbe = one (fun a -> out (uz (fun r -> r)) (Bytes.ufrom_bytes_be (arg_b a))) in
+  let fbe = one (fun a -> out (uz (fun r -> r)) (Bytes.ufrom_bytes_be bp (arg_b a))) in
   let fbe_s = one (fun a -> ok (res_u (Base.enc (SpecBytes.spec_from_bytes_be (arg_b a))))) in
   reg_ms "u.from_bytes_le" fle fle_s; reg_ms "u.tr_from_le" fle fle_s;
   reg_ms "u.from_bytes_be" fbe fbe_s; reg_ms "u.tr_from_be" fbe fbe_s;
-  let tle = one (fun a -> out (fun r -> ok (res_b r)) (Bytes.uto_bytes_le (uarg a))) in
+  let tle = one (fun a -> out (fun r -> ok (res_b r)) (Bytes.uto_bytes_le bp (uarg a))) in
   let tle_s = one (fun a -> ok (res_b (SpecBytes.spec_to_bytes_le (v (uarg a))))) in
-  let tbe = one (fun a -> out (fun r -> ok (res_b r)) (Bytes.uto_bytes_be (uarg a))) in
+  let tbe = one (fun a -> out (fun r -> ok (res_b r)) (Bytes.uto_bytes_be bp (uarg a))) in
   let tbe_s = one (fun a -> ok (res_b (SpecBytes.spec_to_bytes_be (v (uarg a))))) in
   reg_ms "u.to_bytes_le" tle tle_s; reg_ms "u.tr_to_le" tle tle_s;
   reg_ms "u.to_bytes_be" tbe tbe_s; reg_ms "u.tr_to_be" tbe tbe_s;
   reg_ms "u.to_u32_digits"
-    (one (fun a -> out (fun r -> ok (res_d r)) (Bytes.uto_u32_digits (uarg a))))
+    (one (fun a -> out (fun r -> ok (res_d r)) (Bytes.uto_u32_digits ip (uarg a))))
     (one (fun a -> ok (res_d (SpecBytes.spec_to_u32_digits (v (uarg a))))));
   reg_ms "u.to_u64_digits"
     (one (fun a -> ok (res_d (Bytes.uto_u64_digits (uarg a)))))
     (one (fun a -> ok (res_d (SpecBytes.spec_to_u64_digits (v (uarg a))))));
   reg_ms "i.from_bytes_le"
-    (two (fun z a -> out (fun r -> ok (res_i r)) (Bytes.ifrom_bytes_le (arg_z z) (arg_b a))))
+    (two (fun z a -> out (fun r -> ok (res_i r)) (Bytes.ifrom_bytes_le bp (arg_z z) (arg_b a))))
     (two (fun z a -> ok (res_i (ienc (Zar.mul (zsign (arg_z z)) (SpecBytes.spec_from_bytes_le (arg_b a)))))));
   reg_ms "i.from_bytes_be"
-    (two (fun z a -> out (fun r -> ok (res_i r)) (Bytes.ifrom_bytes_be (arg_z z) (arg_b a))))
+    (two (fun z a -> out (fun r -> ok (res_i r)) (Bytes.ifrom_bytes_be bp (arg_z z) (arg_b a))))
     (two (fun z a -> ok (res_i (ienc (Zar.mul (zsign (arg_z z)) (SpecBytes.spec_from_bytes_be (arg_b a)))))));
   let isgn x = Base.z_sign (Base.ival x) in
   let iabs x = Zar.abs (Base.ival x) in
   reg_ms "i.to_bytes_le"
-    (one (fun a -> out (fun p -> sign_pair p res_b) (Bytes.ito_bytes_le (iarg a))))
+    (one (fun a -> out (fun p -> sign_pair p res_b) (Bytes.ito_bytes_le bp (iarg a))))
     (one (fun a -> let x = iarg a in sign_pair (isgn x, SpecBytes.spec_to_bytes_le (iabs x)) res_b));
   reg_ms "i.to_bytes_be"
-    (one (fun a -> out (fun p -> sign_pair p res_b) (Bytes.ito_bytes_be (iarg a))))
+    (one (fun a -> out (fun p -> sign_pair p res_b) (Bytes.ito_bytes_be bp (iarg a))))
     (one (fun a -> let x = iarg a in sign_pair (isgn x, SpecBytes.spec_to_bytes_be (iabs x)) res_b));
   reg_ms "i.to_u32_digits"
-    (one (fun a -> out (fun p -> sign_pair p res_d) (Bytes.ito_u32_digits (iarg a))))
+    (one (fun a -> out (fun p -> sign_pair p res_d) (Bytes.ito_u32_digits ip (iarg a))))
     (one (fun a -> let x = iarg a in sign_pair (isgn x, SpecBytes.spec_to_u32_digits (iabs x)) res_d));
   reg_ms "i.to_u64_digits"
     (one (fun a -> sign_pair (Bytes.ito_u64_digits (iarg a)) res_d))
     (one (fun a -> let x = iarg a in sign_pair (isgn x, SpecBytes.spec_to_u64_digits (iabs x)) res_d));
   (* ---- signed bytes *)
-  let sfle = one (fun a -> out (fun r -> ok (res_i r)) (Bytes.from_signed_bytes_le (arg_b a))) in
+  let sfle = one (fun a -> out (fun r -> ok (res_i r)) (Bytes.from_signed_bytes_le bp (arg_b a))) in
   let sfle_s = one (fun a -> ok (res_i (ienc (SpecBytes.spec_from_signed_bytes_le (arg_b a))))) in
-  let sfbe = one (fun a -> out (fun r -> ok (res_i r)) (Bytes.from_signed_bytes_be (arg_b a))) in
+  let sfbe = one (fun a -> out (fun r -> ok (res_i r)) (Bytes.from_signed_bytes_be bp (arg_b a))) in
   let sfbe_s = one (fun a -> ok (res_i (ienc (SpecBytes.spec_from_signed_bytes_be (arg_b a))))) in
   reg_ms "i.from_signed_bytes_le" sfle sfle_s; reg_ms "i.tr_from_le" sfle sfle_s;
   reg_ms "i.from_signed_bytes_be" sfbe sfbe_s; reg_ms "i.tr_from_be" sfbe sfbe_s;
-  let stle = one (fun a -> out (fun r -> ok (res_b r)) (Bytes.to_signed_bytes_le (iarg a))) in
+  let stle = one (fun a -> out (fun r -> ok (res_b r)) (Bytes.to_signed_bytes_le bp (iarg a))) in
   let stle_s = one (fun a -> ok (res_b (SpecBytes.spec_to_signed_bytes_le (Base.ival (iarg a))))) in
-  let stbe = one (fun a -> out (fun r -> ok (res_b r)) (Bytes.to_signed_bytes_be (iarg a))) in
+  let stbe = one (fun a -> out (fun r -> ok (res_b r)) (Bytes.to_signed_bytes_be bp (iarg a))) in
   let stbe_s = one (fun a -> ok (res_b (SpecBytes.spec_to_signed_bytes_be (Base.ival (iarg a))))) in
   reg_ms "i.to_signed_bytes_le" stle stle_s; reg_ms "i.tr_to_le" stle stle_s;
   reg_ms "i.to_signed_bytes_be" stbe stbe_s; reg_ms "i.tr_to_be" stbe stbe_s;
   (* ---- iterators *)
   reg_ms "u.iter32"
-    (two (fun a s -> render_obs (Iter.it_run (parse_script s) (Iter.it_new (uarg a)))))
+    (two (fun a s -> render_obs (Iter.it_run ip (parse_script s) (Iter.it_new ip (uarg a)))))
     (two (fun a s -> render_obs (SpecBytes.spec_iter32 (v (uarg a)) (parse_script s))));
   reg_ms "u.iter64"
     (two (fun a s -> render_obs (Iter.it64_run (parse_script s) (uarg a))))
     (two (fun a s -> render_obs (SpecBytes.spec_iter64 (v (uarg a)) (parse_script s))));
   reg_ms "i.iter32"
-    (two (fun a s -> render_obs (Iter.it_run (parse_script s) (Iter.it_new (iarg a).Base.mag))))
+    (two (fun a s -> render_obs (Iter.it_run ip (parse_script s) (Iter.it_new ip (iarg a).Base.mag))))
     (two (fun a s -> render_obs (SpecBytes.spec_iter32 (iabs (iarg a)) (parse_script s))));
   reg_ms "i.iter64"
     (two (fun a s -> render_obs (Iter.it64_run (parse_script s) (iarg a).Base.mag)))
@@ -148,23 +151,23 @@ let init () =
   (* ---- serde (C17) *)
   let ser_line (l, ws) = res_l l ^ " " ^ res_w ws in
   reg_ms "u.ser"
-    (one (fun a -> "ok " ^ ser_line (Serde.ser_biguint (uarg a))))
+    (one (fun a -> "ok " ^ ser_line (Serde.ser_biguint sp (uarg a))))
     (one (fun a -> "ok " ^ ser_line (SpecBytes.spec_ser (v (uarg a)))));
   reg_ms "i.ser"
-    (one (fun a -> let (s, p) = Serde.ser_bigint (iarg a) in "ok " ^ res_s "i8" s ^ " " ^ ser_line p))
+    (one (fun a -> let (s, p) = Serde.ser_bigint sp (iarg a) in "ok " ^ res_s "i8" s ^ " " ^ ser_line p))
     (one (fun a -> let (s, p) = SpecBytes.spec_iser (Base.ival (iarg a)) in "ok " ^ res_s "i8" s ^ " " ^ ser_line p));
   let de_res pr = function None -> "err" | Some x -> ok (pr x) in
   reg_ms "u.de"
-    (two (fun h a -> de_res res_u (Serde.de_biguint_tokens (arg_hint h) (arg_d a))))
+    (two (fun h a -> de_res res_u (Serde.de_biguint_tokens sp (arg_hint h) (arg_d a))))
     (two (fun _ a -> de_res (fun z -> res_u (Base.enc z)) (SpecBytes.spec_de (arg_d a))));
   reg_ms "i.de"
-    (three (fun s h a -> de_res res_i (Serde.de_bigint (snd (arg_s s)) (arg_hint h) (arg_d a))))
+    (three (fun s h a -> de_res res_i (Serde.de_bigint sp (snd (arg_s s)) (arg_hint h) (arg_d a))))
     (three (fun s _ a -> de_res (fun z -> res_i (ienc z)) (SpecBytes.spec_ide (snd (arg_s s)) (arg_d a))));
   reg_ms "u.serde_rt"
-    (one (fun a -> let (l, ws) = Serde.ser_biguint (uarg a) in
-                   de_res res_u (Serde.de_biguint_tokens (Some l) ws)))
+    (one (fun a -> let (l, ws) = Serde.ser_biguint sp (uarg a) in
+                   de_res res_u (Serde.de_biguint_tokens sp (Some l) ws)))
     (one (fun a -> ok (res_u (Base.enc (v (uarg a))))));
   reg_ms "i.serde_rt"
-    (one (fun a -> let (s, (l, ws)) = Serde.ser_bigint (iarg a) in
-                   de_res res_i (Serde.de_bigint s (Some l) ws)))
+    (one (fun a -> let (s, (l, ws)) = Serde.ser_bigint sp (iarg a) in
+                   de_res res_i (Serde.de_bigint sp s (Some l) ws)))
     (one (fun a -> ok (res_i (ienc (Base.ival (iarg a))))))
